@@ -91,6 +91,9 @@ def model (arg : String) : String :=
     | .inputError _ => s!"input_error@{stageName stage}"
     | .foreign k =>
       if k.startsWith "UNMODELLED:" then s!"unmodelled@{stageName stage}:{(k.drop 11).toString}"
+      -- the step budgets of the executable model (validator 3·10^6 steps, optimiser 10^5 passes) are a
+      -- bound of the model stream, not a prediction: the theorems quantify over all budgets
+      else if k == "hang" then s!"skipped:model-step-budget@{stageName stage}"
       else s!"foreign@{stageName stage}:{token k}"
 
 /-- the spec on the implementation's answer: `ok`, or the library's InputError with a
